@@ -54,6 +54,13 @@ CLAIMED = {
  'C19': ('metamorphic (with/without --hyperlinks) + URL oracle: proptest-generated diffs x link templates x cwd/GIT_PREFIX/relative-paths under two calling-process identities',
          'Exploration: stripping OSC 8 sequences must give the no-hyperlinks output byte for byte; links are balanced per line; every file link equals the template instantiated with the normalised absolute path of the row\'s section and the displayed number; every commit link equals the commit template instantiated with the linked text.',
          'Trusted: terminal model, tag attribution; directory rule from the code comments of src/utils/path.rs; remote-derived URLs not covered.', '3/C19'),
+
+ 'C12': ('exhaustive enumeration of palette numbers / named pairs / attribute subsets + proptest-generated style strings, each set on one of 25 style options with a rendering site; independent reference parser; show-config round trip',
+         'Exploration with exhaustive small scope: every enumerated and generated style string, set on a style-typed option, must paint the option\'s rendering site (found by unique probe tokens) with exactly the rendition an independent parser of git\'s colour language gives, in 24-bit and 256-colour mode; the value printed by --show-config must reproduce the rendering.',
+         'Trusted: reference parser written from delta --help; ansi_colours nearest-palette function; terminal model; probe inputs.', '3/C12'),
+ 'C13': ('proptest-generated placements of marker values over all configuration sources and feature graphs; reference resolver of the documented precedence; observation through show_config; repeat-run determinism',
+         'Exploration: for generated placements over command line, main section, GIT_CONFIG_PARAMETERS, custom and builtin features, DELTA_FEATURES and feature flags, an independent resolver of the documented order must predict the value --show-config reports for each of 16 observed options of every value type; repeated constructions agree; --no-gitconfig equals an empty configuration.',
+         'Trusted: reference resolver (documented order + ordering comment of gather_features for nesting and command-line flag order); builtin feature definitions learnt from delta in the simplest setting.', '3/C13'),
 }
 hook_commits = subprocess.check_output(['git','-C','/repo','log','--format=%H','--grep','^verif hook:'],text=True).split()
 checks = []
